@@ -123,3 +123,20 @@ Proof.
   - vm_compute. reflexivity.
 Qed.
 Print Assumptions C04_invariant_nonvacuous.
+
+(* Pass order: the callbacks of one timer pass run in non-decreasing
+   (due time, start id) order -- i.e. by due time and, for equal due times,
+   in the order the timers were started -- for every heap shape and whatever
+   the callbacks do to other timers meanwhile. *)
+From UV Require Import Proofs.TimerOrder.
+From Coq Require Import Sorting.Sorted.
+Theorem C04_pass_order :
+  forall s beh cnt, TI s -> ready s = [] ->
+  StronglySorted
+    (fun a b => k_timeout a < k_timeout b \/ (k_timeout a = k_timeout b /\ k_sid a <= k_sid b))
+    (fire_keys (snd (fst (run_timers s beh cnt)))).
+Proof.
+  intros s beh cnt T Hr. pose proof (pass_order s beh cnt T Hr) as H.
+  eapply SS_ext; [|exact H]. intros a b _ _. apply kle_spec.
+Qed.
+Print Assumptions C04_pass_order.
